@@ -117,6 +117,9 @@ class MessageSerializer(object):
     if result_spec:
       exceptions = result_spec[1:]
       for e in exceptions:
+        if e is None:
+          # Unused field id (the IDL numbers its exceptions with a gap).
+          continue
         attr_val = getattr(result, e[2], None)
         if attr_val is not None:
           return MethodReturnMessage(error=attr_val)
